@@ -868,3 +868,84 @@ def foreign_size_area(chk, db, prefixes, rule="FOREIGNSIZE"):
                               "out of the new size, so they are never destroyed (and a later append constructs over them)"
                               % (astx.loc(f, call), astx.show(call, 50), rn), {"where": astx.loc(f)})
     return n
+
+
+# ---- CONDORDER: the count is consulted before the element it guards -----------------------------------------------------------
+def check_cond_order(f):
+    """A counted C-string routine may read at most `count` elements of its source: `*src != 0 and n != count` reads element
+    n before it knows that n < count, i.e. element `count` (one past a full, unterminated field) in the last evaluation.
+    In every `&&` condition the operand that tests the count comes before an operand that dereferences a pointer parameter.
+    returns None | list of (cond node, deref node)"""
+    from .iters import COUNT_NAME
+    if f.get("body") is None:
+        return None
+    ptrs = set(p["n"] for p in f["params"] if p.get("n") and p["ty"].strip().endswith("*"))
+    counts = [p["n"] for p in f["params"] if p.get("n") and COUNT_NAME.match(p["n"]) and "*" not in p["ty"] and "&" not in p["ty"]]
+    if not ptrs or len(counts) != 1:
+        return None
+    cnt = counts[0]
+    # locals compared with the count are counters
+    counters = set([cnt])
+    for x in astx.all_exprs(f, into_lambdas=False):
+        if x.get("k") == "bin" and x["op"] in ("!=", "<", "==", "<=", ">", ">="):
+            l, r = ref_name(x["l"]), ref_name(x["r"])
+            if l == cnt and r:
+                counters.add(r)
+            if r == cnt and l:
+                counters.add(l)
+    local_ptrs = set()
+    for st in astx.walk_stmts(f["body"]):
+        if st.get("k") == "decl":
+            for v in st["vars"]:
+                if "*" in (v.get("ty") or "") and v.get("n"):
+                    local_ptrs.add(v["n"])
+    allp = ptrs | local_ptrs
+
+    def derefs(e):
+        out = []
+        for y in astx.walk_expr(e):
+            if y.get("k") == "un" and y["op"] == "*":
+                t = astx.strip_casts(y["e"])
+                while t is not None and t.get("k") == "un" and t["op"] in ("++", "--"):
+                    t = astx.strip_casts(t["e"])
+                if ref_name(t) in allp:
+                    out.append(y)
+            if y.get("k") == "idx" and ref_name(y["b"]) in allp:
+                out.append(y)
+        return out
+
+    def tests_count(e):
+        return any(y.get("k") == "ref" and y.get("n") in counters for y in astx.walk_expr(e))
+    out = []
+    subject = False
+    conds = [st["c"] for st in astx.walk_stmts(f["body"]) if st.get("k") in ("for", "while", "do", "if") and st.get("c") is not None]
+    for c in conds:
+        for x in astx.walk_expr(c):
+            if x.get("k") == "bin" and x["op"] == "&&":
+                dl, dr = derefs(x["l"]), derefs(x["r"])
+                cl, cr = tests_count(x["l"]), tests_count(x["r"])
+                if (dl and cr) or (dr and cl):
+                    subject = True
+                if dl and cr and not cl:
+                    out.append((x, dl[0]))
+    return out if subject else None
+
+
+def cond_order_area(chk, db, prefixes, rule="CONDORDER"):
+    n = 0
+    for f in db.funcs:
+        if f.get("body") is None or not any(f["file"].startswith(p) for p in prefixes):
+            continue
+        r = check_cond_order(f)
+        if r is None:
+            continue
+        n += 1
+        construct = astx.sig(f)
+        chk.instance(rule)
+        chk.obligation(rule, construct, not r)
+        for node, d in r[:1]:
+            chk.violation(rule, construct, "element-read-before-count-test",
+                          "%s: in `%s` the element `%s` is read before the count is consulted: after `count` elements the condition "
+                          "reads the element one past the counted field (out of bounds for a full, unterminated field; not a constant "
+                          "expression there)" % (astx.loc(f, node), astx.show(node, 70), astx.show(d, 20)), {"where": astx.loc(f)})
+    return n
